@@ -20,6 +20,9 @@ type c09 struct{}
 
 func (c09) ID() string { return "C09" }
 func (c09) Runs(tier string) int {
+	if tier == "heavy" {
+		return 64
+	}
 	if tier == "thorough" {
 		return 300000
 	}
@@ -232,6 +235,11 @@ func c09Exec(f func() error) c09Status {
 
 func (c09) Run(ctx *core.RunCtx) {
 	ch := ctx.Ch
+	// the bootstrapping circuit (seconds per run): thorough tier only, and rarely; tier "heavy": always
+	if ctx.Tier == "heavy" || ctx.Tier == "thorough" && ch.Chance("heavy-history", 1, 400) {
+		c09HeavyRun(ctx)
+		return
+	}
 	var sc *c09Scheme
 	switch ch.Weighted("scheme", []int{4, 4, 4, 2, 1, 2}) {
 	case 5:
